@@ -50,7 +50,7 @@ func main() {
 		return nil
 	})
 	sort.Strings(dirs)
-	var pkgVars, keeperFields, clockCalls, goStmts, mapRanges, genesisFields, storePrefixes, blockers []fact
+	var pkgVars, keeperFields, clockCalls, goStmts, mapRanges, genesisFields, storePrefixes, blockers, coinCalls []fact
 	for _, rel := range dirs {
 		fset := token.NewFileSet()
 		pkgs, err := parser.ParseDir(fset, filepath.Join(*repo, rel), func(fi os.FileInfo) bool {
@@ -169,6 +169,13 @@ func main() {
 							switch n := n.(type) {
 							case *ast.CallExpr:
 								if se, ok := n.Fun.(*ast.SelectorExpr); ok {
+									m := se.Sel.Name
+									if strings.Contains(m, "MintCoins") || strings.Contains(m, "BurnCoins") || strings.Contains(m, "SendCoins") ||
+										strings.Contains(m, "DelegateCoins") || m == "SetBalance" || m == "AddCoins" || m == "SubUnlockedCoins" || m == "SetSupply" {
+										coinCalls = append(coinCalls, fact{rel + "/" + base, fn, exprStr(n.Fun)})
+									}
+								}
+								if se, ok := n.Fun.(*ast.SelectorExpr); ok {
 									if id, ok := se.X.(*ast.Ident); ok {
 										q := id.Name + "." + se.Sel.Name
 										if q == "time.Now" || q == "time.Since" || q == "time.Until" || q == "time.After" || q == "time.Sleep" || q == "time.Tick" ||
@@ -224,6 +231,7 @@ func main() {
 	emit("mapRanges", "range statements over values of map type in keepers, module roots and app (file, function, ranged expression)", mapRanges)
 	emit("genesisFields", "fields of each module's GenesisState (directory, field, type)", genesisFields)
 	emit("storePrefixes", "store key prefixes declared in */types (directory, constant, value)", storePrefixes)
+	emit("coinCalls", "calls that create, destroy or move coins (file, function, callee) in keepers, module roots and app", coinCalls)
 	emit("blockers", "begin/end blocker entry points (directory, file, function)", blockers)
 	b.WriteString("end SaoVerif.Generated\n")
 	if *out == "" {
